@@ -9,19 +9,26 @@
 //! Space (bounded exhaustive): EVERY program of <= k letters (k = 3 quick, 4 thorough)
 //! over the 20-letter alphabet LETTERS (one instruction per letter; loops: a self-jump
 //! `jnzi` that spins until out of gas, `jnzb` to the previous instruction guarded by a
-//! counter, `jmpb` two instructions back; calls of contract A (3 instructions: log, mint,
-//! ret), of contract B (log, call A, ret; never armed) and of A with 1 gas; `jal` into a fixed
+//! counter, `jmpb` two instructions back; calls of contract A,
+//! of contract B (calls A; never armed) and of A with 1 gas; `jal` into a fixed
 //! subroutine; tr, log, logd, aloc, ret, retd, rvrt, a memory-ownership panic, an
 //! arithmetic panic (`subi` below zero)) embedded in the fixed script
 //!     progkit prelude (9) | ji 12 | SUB: log | jal $zero 0x13 (return) | movi 0x10 2 |
 //!     movi 0x11 5 | <body> | ret $one | rvrt $one
-//! with the unit gas schedule (`GasCosts::unit()`, every instruction 1 gas) and gas limit
-//! GAS_LIMIT = 48 (loops end by OutOfGas after < 49 instructions), x EVERY subset of the script
-//! breakpoint locations {last set-up instruction, each body instruction, the final
-//! `ret`, the subroutine entry} (2^(n+3) <= 64 quick / 128 thorough) x EVERY subset of
-//! the 3 instructions of contract A (8), plus single-stepping (without and with all
-//! breakpoints armed). Each case runs TWICE on the same `Interpreter` (the second
-//! transaction starts with whatever the debugger kept from the first one).
+//! in TWO worlds:
+//!  * unit: `GasCosts::unit()` (every instruction 1 gas), gas limit 48, so every loop ends by
+//!    OutOfGas after < 49 instructions; A = [log, mint, ret]; B = [log, call A, ret];
+//!  * default: the default (non-uniform) gas schedule with 100,000 gas, so that gas-relevant
+//!    per-transaction state that `resume` might disturb (hot/cold storage slots) shows in
+//!    $ggas/$cgas, `gas_used` and the receipts root; A = [sww k, log, srw k (hot), ret];
+//!    B = [swwq k, call A, cfei, subi, srwq k (hot), scwq k, ret]; programs whose uninterrupted
+//!    run exceeds 96 steps (loops only OutOfGas would end) are left to the unit world;
+//! x EVERY subset of the script breakpoint locations {last set-up instruction, each body
+//! instruction, the final `ret`, the subroutine entry} (2^(n+3) <= 64 quick / 128 thorough)
+//! x EVERY subset of the instructions of contract A (8 unit / 16 default; default world:
+//! only the empty A subset for programs without a call letter, which never execute A), plus
+//! single-stepping (without and with all breakpoints armed). Each case runs TWICE on the same
+//! `Interpreter` (the second transaction starts with whatever the debugger kept from the first).
 //!
 //! Reference (per program, no debugger): `Interpreter::transact` twice on one VM
 //! (final state, receipts, transaction as left by the VM, storage `Debug` rendering),
